@@ -19,8 +19,8 @@ TRUSTED_BASE = [
     "Coq 8.16.1 kernel + vm_compute (case evaluation); no native_compute",
     "axioms: none (Print Assumptions: Closed under the global context for every C08 theorem)",
     "tools/py2v.py fragment translator; the extern terms of tools/frags/shapeops.py (hand-written meaning of the "
-    "float quotient `self.size / np.prod(...)`: exact quotient up to 2^53, a round-to-nearest-even float64 "
-    "calculation in Z beyond, the latter validated by correspondence only)",
+    "tuple-wide expressions `reduce(operator.mul, (d for d in shape if d != -1), 1)` and "
+    "`tuple([d if d != -1 else extra for d in shape])` of COO.reshape)",
     "Spec/NpShapeOps.v as a description of NumPy (np.transpose/reshape/squeeze/expand_dims/flip/roll/pad/"
     "broadcast_to/moveaxis), cross-checked against NumPy itself on every small generated case (judge_spec_np)",
     "Model/ShapeOps.v as a transcription of the COO code paths, checked against the implementation's concrete "
@@ -36,15 +36,12 @@ ASSUMPTIONS = [
 ]
 
 CLAUSES = {
-    11: "D7_roll_scalar_shift_with_axes_tuple_len_ne_ndim",
-    12: "D12_size_beyond_2^53",
     13: "squeeze_negative_axis",
     14: "squeeze_duplicate_axis",
     15: "flip_repeated_axis",
     16: "moveaxis_repeated_destination",
     17: "broadcast_to_fewer_dims",
     18: "pad_negative_width",
-    19: "reshape_minus1_with_zero_extent",
     20: "reshape_several_minus1",
     21: "roll_tuple_shift_single_axis",
 }
